@@ -86,6 +86,16 @@ class _Raised(Exception):
     """The interpreted function raised (value = normalised exception expression)."""
 
 
+class Rec:
+    """A sample record whose attributes the evaluator may read (e.g. a stream with `.idle`)."""
+
+    def __init__(self, **fields: Any) -> None:
+        self.fields = fields
+
+    def __repr__(self) -> str:
+        return "Rec(" + ", ".join(f"{k}={v!r}" for k, v in self.fields.items()) + ")"
+
+
 def eval_expr(node: ast.AST, env: Dict[str, Any]) -> Any:
     """Evaluate constants, names from env, comparisons, bool ops, set/tuple displays, `in`."""
     if isinstance(node, ast.Constant):
@@ -98,6 +108,12 @@ def eval_expr(node: ast.AST, env: Dict[str, Any]) -> Any:
         key = norm(node)
         if key in env:
             return env[key]
+        try:
+            base = eval_expr(node.value, env)
+        except Unknown:
+            raise Unknown(key)
+        if isinstance(base, Rec) and node.attr in base.fields:
+            return base.fields[node.attr]
         raise Unknown(key)
     if isinstance(node, (ast.Set, ast.Tuple, ast.List)):
         vals = [eval_expr(e, env) for e in node.elts]
@@ -303,6 +319,14 @@ def eval_function(func: ast.AST, env: Dict[str, Any], depth: int = 0, want_env: 
                     block(s.body)
                 else:
                     block(s.orelse)
+            elif isinstance(s, ast.Assign) and len(s.targets) == 1 and isinstance(s.targets[0], ast.Subscript) and isinstance(s.targets[0].value, ast.Name) and isinstance(local.get(s.targets[0].value.id), (list, dict)):
+                cont = local[s.targets[0].value.id]
+                cont = list(cont) if isinstance(cont, list) else dict(cont)
+                try:
+                    cont[eval_expr(s.targets[0].slice, local)] = eval_expr(s.value, local)
+                except (IndexError, TypeError) as error:
+                    raise _Raised(f"{type(error).__name__}: {error}")
+                local[s.targets[0].value.id] = cont
             elif isinstance(s, ast.Assign) and len(s.targets) == 1:
                 _bind(s.targets[0], eval_expr(s.value, local), local)
             elif isinstance(s, ast.AnnAssign) and s.value is not None:
